@@ -61,6 +61,32 @@ class FrameTS(object):
         self.has, self.cell, self.desc = has, cell, desc  # has(label) -> Bool ; cell(label, t) -> Num
 
 
+class RowSumTS(object):
+    """frame.sum(axis=1): the series whose value at a date is the sum, over the frame's columns, of the cells of that date (A-PANDAS);
+    known by the frame it sums (two row sums are equal when their frames have the same columns and cells: extensionality of a finite sum)"""
+
+    def __init__(self, frame, axis_is_rows, desc=""):
+        self.frame, self.axis_is_rows, self.desc = frame, axis_is_rows, desc
+
+
+sw_has = z3.Function("security_weights_has_column", dsl.Ref, S, z3.BoolSort())       # the frame Backtest.security_weights returns (its contract is proved on its own body)
+sw_cell = z3.Function("security_weights_cell", dsl.Ref, S, I, R)
+pow_f = z3.Function("real_power", R, R, R)
+
+
+def _const_of(n):
+    """python number a Num denotes when it is a literal, else None"""
+    try:
+        v = z3.simplify(n.r)
+        if z3.is_int_value(v):
+            return v.as_long()
+        if z3.is_rational_value(v):
+            return float(v.as_fraction())
+    except Exception:
+        pass
+    return None
+
+
 class FrameRef(object):
     """a mutable DataFrame / dict of Series held in a local: its content lives in st.ghost[key]"""
 
@@ -75,7 +101,14 @@ class MembersV(object):
 
 def node_series(node, attr):
     k = KINDS[attr]
-    return SeriesTS(lambda t, node=node, k=k: Num(ts_f[k](node.term, t), False, False), "%s of node" % attr)
+    r = SeriesTS(lambda t, node=node, k=k: Num(ts_f[k](node.term, t), False, False), "%s of node" % attr)
+    r.shared = True      # the node's own history object: an in-place operator on it rewrites the history
+    return r
+
+
+def ForallInt_cols_same(fa, fb):
+    l = fresh_label("lcol")
+    return z3.ForAll([l], _zb(fa.has(l)) == _zb(fb.has(l)))
 
 
 def _report_executor(ex):
@@ -92,6 +125,16 @@ def _report_executor(ex):
                 return [(st, node_series(obj, attr))]
             if isinstance(obj, RefV) and attr == "full_name" and self.prog.is_subclass(obj.cls, "Node"):
                 return [(st, StrV(fullname_f(obj.term)))]
+            if isinstance(obj, RefV) and attr == "security_weights" and obj.cls == "Backtest":
+                self.stats.contracts_used.add("bt.backtest.Backtest.security_weights")
+                bt_ = obj.term
+                fr_ = FrameTS(lambda l, b=bt_: sw_has(b, l), lambda l, t, b=bt_: Num(sw_cell(b, l, t), False, False), "self.security_weights")
+                fr_.shared = True    # the cached frame every later reader gets
+                return [(st, fr_)]
+            if isinstance(obj, (FrameTS, FrameRef)) and attr == "sum":
+                return [(st, BoundFn("ts_sum", "sum", recv=obj))]
+            if isinstance(obj, (FrameTS, FrameRef)) and attr == "pow":
+                return [(st, BoundFn("ts_pow", "pow", recv=obj))]
             if isinstance(obj, SeriesTS) and attr == "copy":
                 return [(st, BoundFn("ts_copy", "copy", recv=obj))]
             if isinstance(obj, (FrameTS, FrameRef)) and attr == "div":
@@ -103,6 +146,14 @@ def _report_executor(ex):
             if isinstance(obj, ModV) and obj.name in ("pd", "pandas") and attr == "DataFrame":
                 return [(st, BoundFn("pd_DataFrame", "DataFrame"))]
             return base.load_attr(self, st, obj, attr)
+
+        def stmt_AugAssign(self, node, st):
+            # pandas' augmented operators work in place: `x op= y` on a history series or on the cached report frame rewrites it for every later reader
+            if isinstance(node.target, ast.Name):
+                cur = st.locals.get(node.target.id)
+                if getattr(cur, "shared", False):
+                    st.ghost["modified_in_place"] = "%s (%s) at line %s" % (node.target.id, cur.desc, getattr(node, "lineno", "?"))
+            return base.stmt_AugAssign(self, node, st)
 
         def _frame_of(self, st, v):
             if isinstance(v, FrameRef):
@@ -126,6 +177,15 @@ def _report_executor(ex):
                 s = pos[0]
                 if isinstance(s, SeriesTS) and (kw.get("axis") is not None and self._num(st, kw["axis"]).r is not None):
                     return [(st, FrameTS(fr.has, lambda l, t, fr=fr, s=s: fr.cell(l, t) / s.val(t), fr.desc + ".div(series)"))]
+            if isinstance(f, BoundFn) and f.kind == "ts_sum":
+                fr = self._frame_of(st, f.recv)
+                ax = kw.get("axis", pos[0] if pos else None)
+                axc = _const_of(self._num(st, ax)) if ax is not None and ax is not NONEV else 0      # pandas: DataFrame.sum() defaults to axis=0
+                if axc is None:
+                    self._undecided("DataFrame.sum along an axis that is not a literal")
+                return [(st, RowSumTS(fr, axc == 1, fr.desc + ".sum(axis=%s)" % axc))]
+            if isinstance(f, BoundFn) and f.kind == "ts_pow" and len(pos) == 1:
+                return self.ext_binop(ast.Pow(), f.recv, pos[0], st)
             if isinstance(f, BoundFn) and f.kind == "ts_fillna":
                 fr = self._frame_of(st, f.recv)
                 return [(st, FrameTS(fr.has, fr.cell, fr.desc + ".fillna()"))]   # cells are reals here: nothing to fill
@@ -162,6 +222,20 @@ def _report_executor(ex):
         def ext_binop(self, op, a, b, st):
             if isinstance(a, SeriesTS) and isinstance(b, SeriesTS) and isinstance(op, ast.Add):
                 return [(st, SeriesTS(lambda t, a=a, b=b: a.val(t) + b.val(t), "sum of series"))]
+            if isinstance(a, (FrameTS, FrameRef)) and isinstance(op, ast.Pow) and not isinstance(b, (FrameTS, FrameRef, SeriesTS)):
+                fr = self._frame_of(st, a)
+                e = self._num(st, b)
+                ec = _const_of(e)
+                if ec == 2:
+                    cell = lambda l, t, fr=fr: fr.cell(l, t) * fr.cell(l, t)
+                else:   # any other exponent: an uninterpreted power (nothing is known about it but that it is a function)
+                    cell = lambda l, t, fr=fr, e=e: Num(pow_f(fr.cell(l, t).r, z3.ToReal(e.r) if e.r.sort() == I else e.r), False, False)
+                return [(st, FrameTS(fr.has, cell, "(%s ** %s)" % (fr.desc, ec)))]
+            if isinstance(a, (FrameTS, FrameRef)) and isinstance(b, (FrameTS, FrameRef)) and isinstance(op, (ast.Mult, ast.Add, ast.Sub)):
+                fa, fb = self._frame_of(st, a), self._frame_of(st, b)   # pandas aligns on the union of the columns; a column missing on one side gives NaN cells - only frames with the same columns are followed
+                fn = {ast.Mult: lambda x, y: x * y, ast.Add: lambda x, y: x + y, ast.Sub: lambda x, y: x - y}[type(op)]
+                st.oblige("%s/cellwise-arithmetic-on-frames-with-the-same-columns" % self.cur_func[-1], ForallInt_cols_same(fa, fb), kind="side")
+                return [(st, FrameTS(fa.has, lambda l, t, fa=fa, fb=fb, fn=fn: fn(fa.cell(l, t), fb.cell(l, t)), "cellwise"))]
             return base.ext_binop(self, op, a, b, st)
 
         def expr_DictComp(self, e, st):
@@ -321,6 +395,7 @@ def verify_report(ex, contract, timeout_ms=30000, variant="mv"):
             def ob(cid, goal):
                 obligs.append(Oblig("%s/%s" % (name, cid), st.pc, goal, "post", P18))
 
+            ob("no-node-history-is-modified-in-place", st.ghost.get("modified_in_place") is None)
             ob("returns-a-frame-the-model-follows", isinstance(Rv, FrameTS))
             if not on_backtest:
                 calls = [c for c in st.log if len(c) == 4]
@@ -369,8 +444,67 @@ def verify_report(ex, contract, timeout_ms=30000, variant="mv"):
     return fr
 
 
+def verify_hhi(ex, contract, timeout_ms=30000, variant=None):
+    """Backtest.herfindahl_index: the row sum, over exactly the columns of self.security_weights, of the squared weights.
+    The callee is used by its contract (the frame security_weights returns: sw_has / sw_cell); the sum over the columns is a structured value
+    (RowSumTS) and the obligation is pointwise on its summand at a skolem column and date - two sums over the same columns with equal summands are equal."""
+    from pyvc.verify import FuncReport, discharge, entry_state
+
+    q = contract.qualname
+    fr = FuncReport(q)
+    name = "herfindahl_index"
+    try:
+        fi = ex.prog.func(q)
+        fr.source_hash = fi.source_hash()
+        rx = _report_executor(ex)
+        st0, self, args = entry_state(rx, contract)
+        L0, t0 = fresh_label("L0"), z3.Int(dsl.fresh_name("t0"))
+        tstart = time.time()
+        exits = rx.run_function(fi, st0.fork(), self, [])
+        fr.symexec_s = time.time() - tstart
+        fr.paths = len(exits)
+        obligs = []
+        n_norm = 0
+        for (st, oc) in exits:
+            k_ = oc.kind if oc.kind != "raise" else "raise:" + oc.exc
+            fr.exits[k_] = fr.exits.get(k_, 0) + 1
+            obligs.extend(st.obligs)
+
+            def ob(cid, goal):
+                obligs.append(Oblig("%s/%s" % (name, cid), st.pc, goal, "post", P18))
+
+            ob("does-not-raise", oc.kind != "raise")
+            if oc.kind == "raise":
+                continue
+            n_norm += 1
+            Rv = oc.value if oc.kind == "return" else None
+            ob("the-cached-security-weights-are-not-modified-in-place", st.ghost.get("modified_in_place") is None)
+            ob("returns-a-sum-over-the-columns-of-a-frame", isinstance(Rv, RowSumTS))
+            if not isinstance(Rv, RowSumTS):
+                continue
+            ob("one-number-per-date:-the-sum-runs-along-each-row", bool(Rv.axis_is_rows))
+            ob("summed-over-exactly-the-columns-of-the-security-weights", _zb(Rv.frame.has(L0)) == sw_has(self.term, L0))
+            w = sw_cell(self.term, L0, t0)
+            ob("each-summand-is-the-squared-security-weight", Implies(sw_has(self.term, L0), Rv.frame.cell(L0, t0).r == w * w))
+            ob("the-security-weights-come-from-the-report-under-contract", "bt.backtest.Backtest.security_weights" in rx.stats.contracts_used)
+        if n_norm == 0:
+            obligs.append(Oblig("%s/has-a-normal-exit" % name, [], False, "post", P18))
+        s = z3.Solver()
+        for p in st0.pc:
+            s.add(p)
+        fr.canary = str(s.check())
+        discharge(obligs, timeout_ms, fr, q)
+        fr.stats = dict(feas_queries=rx.stats.feas_queries, feas_s=round(rx.stats.feas_time, 3), inlined=sorted(rx.stats.inlined), contracts_used=sorted(rx.stats.contracts_used))
+    except Undecided as e:
+        fr.undecided = str(e)
+    except Exception as e:
+        fr.undecided = "ENGINE-ERROR: %s\n%s" % (e, traceback.format_exc())
+    return fr
+
+
 def contracts():
-    out = []
+    out = [(RelationalContract("bt.backtest.Backtest.herfindahl_index", [], None, self_cls="Backtest",
+                               note="result(t) == sum over the columns l of security_weights of security_weights[l][t] ** 2 (contracts/reports.py: verify_hhi)"), verify_hhi)]
     for q, cls in (("bt.backtest.Backtest.weights", "Backtest"), ("bt.backtest.Backtest.security_weights", "Backtest"), ("bt.core.StrategyBase.positions", "StrategyBase"), ("bt.core.StrategyBase.outlays", "StrategyBase")):
         out.append((RelationalContract(q, [], None, self_cls=cls, note="report == documented function of the node histories (contracts/reports.py)"), verify_report))
     return out
